@@ -44,7 +44,7 @@ CLEAN = [S("alpha"), S("beta"), S("gamma"), S("delta"), S("10.0.0.1:6379."), S("
          PST("beta"), I64(5), K("bool", "true"), K("bool", "false"), K("f64", "2.5"), K("f32", "0.25"), K("u", 9),
          K("u16", 9), K("u32", 5), K("u64", "18446744073709551615"), K("i8", -3), K("i16", 300), K("i32", 7),
          K("bytes", "alpha"), K("err", "gamma"), K("pint", 13), K("ppstr", "delta"), K("struct", 4),
-         K("verr", "beta"), K("ppstringer", "cache-a")]
+         K("verr", "beta"), K("ppstringer", "cache-a"), K("errstr", "zeta"), K("pperrstr", "zeta"), K("nilptr", "")]
 
 # the single-key API of kv.Store (harness/cmd/c15/script.go kvOps), by the redis type of the key it is run on
 KV_OPS = {
@@ -92,7 +92,7 @@ INT_RANGE = {"int": (-2 ** 63, 2 ** 63 - 1), "i8": (-128, 127), "i16": (-2 ** 15
              "u32": (0, 2 ** 32 - 1), "u64": (0, 2 ** 64 - 1), "pint": (-2 ** 63, 2 ** 63 - 1)}
 TEXTS = ["", "a", "1", "01", "-1", "1.0", "2.5", "true", "<nil>", "{4 x}", "{e}", "node1", "node11", "10.0.0.1:6379",
          "\u043a\u043b\u044e\u0447\u00e9\u4e2d", "x y", "NaN", "+Inf", "255", "-128", "18446744073709551615", "[97 98]"]
-TEXT_KINDS = ["str", "bytes", "stringer", "pstringer", "ppstringer", "err", "verr", "ppstr"]
+TEXT_KINDS = ["str", "bytes", "stringer", "pstringer", "ppstringer", "err", "verr", "ppstr", "errstr", "pperrstr"]
 F_IP = ["0", "1", "7", "12", "255", "1234", "100000", "999999", "1000000", "123456789012", "100000000000000000000"]
 F_FP = ["", "5", "25", "125", "001", "0001", "00001", "000012345", "123456789"]
 
@@ -125,7 +125,7 @@ def repr_values(rng, n):
         elif r < 0.9:
             vs.append(K(rng.choice(TEXT_KINDS), rng.choice(TEXTS + ["%d" % rng.randrange(300), "k%d" % rng.randrange(50)])))
         else:
-            vs.append(rng.choice([K("nil", ""), K("bool", "true"), K("bool", "false"), K("struct", rng.randrange(-5, 300))]))
+            vs.append(rng.choice([K("nil", ""), K("nilptr", ""), K("bool", "true"), K("bool", "false"), K("struct", rng.randrange(-5, 300))]))
     return vs
 
 
@@ -153,8 +153,10 @@ def coq_gval(v):
         return "(VBool %s)" % ("true" if t == "true" else "false")
     if k == "struct":
         return "(VPair %s %s)" % (cz(int(t)), coq_bytes("x"))
+    if k == "nilptr":
+        return "VNilPtr"
     ctor = {"str": "VStr", "bytes": "VBytes", "stringer": "VStringer", "pstringer": "VStringer", "ppstringer": "VPPStringer",
-            "err": "VErrPtr", "verr": "VErrVal", "ppstr": "VPPStr"}[k]
+            "err": "VErrPtr", "verr": "VErrVal", "ppstr": "VPPStr", "errstr": "VErrStr", "pperrstr": "VPPErrStr"}[k]
     return "(%s %s)" % (ctor, coq_bytes(t))
 
 
@@ -202,7 +204,10 @@ class C15(Property):
                   "key. The ring as a concurrent object (Conc.v: AddWithReplicas = [Remove] ; [insert], two atomic "
                   "actions): for every set of threads and every schedule the ring invariant holds, Get answers a "
                   "member owning the successor slot among the layers present, and a node whose Remove is followed by "
-                  "no insertion is never returned. agrees => prop_ok is proved for ring histories. Tied to the "
+                  "no insertion is never returned. agrees => prop_ok is proved for ring histories, concurrent and identity cases. "
+                  "The value a lookup returns is the one handed to the latest add of its repr (latest_value_wins, every hash). "
+                  "Node identity: Repr.v models lang.Repr, innerRepr and the virtual-node strings repr+itoa(i) (pairwise "
+                  "different per node); the strings the ring really hashes are observed through a recording hash.Func. Tied to the "
                   "source by differential execution: ring histories through the public API with murmur3 and a "
                   "small-range hash; cache.New / kv.NewStore clusters over miniredis servers whose command logs give "
                   "the (key, server) touches.")
@@ -219,7 +224,13 @@ class C15(Property):
     rule = ("ring: histories of 6..22 Add/AddWithReplicas/AddWithWeight/Remove over 2..6 nodes (every kind lang.Repr "
             "distinguishes, equal reprs, ambiguous names), replicas/weights from {<0, 0, 1, .., R, >R}, h.replicas "
             "100/120/150, 20 probe keys read after every op; 50% murmur3 + clean names, 20% murmur3 + ambiguous names, "
-            "30% small-range hash. clusters: 2-4 miniredis servers, 1-3 instances (cache.New / kv.NewStore, also "
+            "22% small-range hash, 8% a hash spread over the whole uint64 range (0, >= 2^63, MaxUint64: keys hashing exactly onto "
+            "a virtual node, below the least, above the greatest); 45% of the universes carry twins (different values with the "
+            "same repr: another pointer with the same String(), 7 / \"7\" / a Stringer / *int) re-added over each other with "
+            "the same effective count (same call, or equal only after truncation to h.replicas). identity: values of every kind "
+            "lang.Repr distinguishes (all integer widths at their bounds, float32/64 incl. NaN/Inf, string/[]byte/Stringer/"
+            "error by value, by pointer, by pointer to pointer, nil, typed nil pointer, struct) through Get/Add/Remove with a "
+            "recording hash func. clusters: 2-4 miniredis servers, 1-3 instances (cache.New / kv.NewStore, also "
             "single-node, same node set in different orders, 4-/5-digit colliding ports), scripts of single-key "
             "operations (the whole API of both), Del with 0/1/n keys, Del under an injected server fault or with a "
             "cancelled context, cleaner ticks (first and second retry), per-server snapshots; corpus: the whole API on "
@@ -237,6 +248,10 @@ class C15(Property):
         "cluster scripts: the key(s) named by a redis command are extracted from its arguments by the harness (keysOf); "
         "miniredis pre-hooks log and fail commands; harness/overlay/cache/zz_verif_c15.go ADDS VerifC15CleanerWheel to "
         "package cache (nothing replaced) so that ticks of the cleaner are explicit events",
+        "node identity: Repr.v is a hand-written model of lang.Repr / fmt's %v on the harness's value kinds; a float is handed "
+        "over as its shortest round-trip decimal text (<= 15 / 6 significant digits)",
+        "hash.go: the hash function is a parameter of the model; hash.Hash / Md5 / Md5Hex are executed (functions of their "
+        "input, input untouched, Md5Hex = hex of Md5) and compared with murmur3 x64_128 / RFC 1321 references for the record only",
         "forced schedules: a call is parked by its node's String() when that is evaluated by AddWithReplicas itself "
         "after its h.Remove(node) (recognised on the call stack); the executor reports which actions really ran and the "
         "model is run on that trace",
@@ -453,7 +468,8 @@ class C15(Property):
             vals += [K(k, x) for x in sorted(set([lo, hi, 0, 1, 7, 10, max(lo, -1), max(lo, -128), min(hi, 255)]))]
         for k in TEXT_KINDS:
             vals += [K(k, t) for t in TEXTS]
-        vals += [K("nil", ""), K("bool", "true"), K("bool", "false"), K("struct", 4), K("struct", -1), K("struct", 0)]
+        vals += [K("nil", ""), K("nilptr", ""), K("bool", "true"), K("bool", "false"), K("struct", 4), K("struct", -1), K("struct", 0),
+                 S("S:a"), S("E:a"), S("{a}")]
         for b, texts in ((64, ["0", "1", "7", "2.5", "-2.5", "0.1", "0.25", "255", "100000", "999999", "1000000", "1234567", "0.0001",
                                "0.00001", "0.000012345", "123456.789", "123456789012.125", "100000000000000000000", "-0.001", "NaN", "+Inf", "-Inf"]),
                          (32, ["0", "1", "7", "2.5", "-2.5", "0.1", "0.25", "255", "100000", "999999", "1000000", "0.0001", "0.00001",
@@ -703,6 +719,25 @@ class C15(Property):
         res.append(self._script([20121, 20122],
                                 [{"kind": "cache", "nodes": [[1, 10]]}, {"kind": "cache", "nodes": [[0, 100], [1, 100]]}],
                                 keys, sops))
+        # (4) the error path of the dispatch through the PUBLIC constructors: total weight > 0, yet no node gets a
+        # virtual node (h.replicas * weight wraps Go's int to 0) — the ring is empty, every operation on a key must
+        # answer the no-node error (kv.ErrNoRedisNode / the cluster's errNotFound) and send nothing; beside a
+        # store with nodes over the same servers, which never answers it
+        W0 = 92233720368547759
+        keys = self._kv_keys(0, "e", 1) + [{"inst": 1, "k": "ce:%d" % j} for j in range(4)] + self._kv_keys(2, "f", 1)
+        k1, k2 = 6, 10
+        sops = [["populate"]]
+        for ti, t in enumerate("shlpez"):
+            sops += [["op", 0, name, ti] for name in KV_OPS[t]]
+        sops += [["del", 0, [0]], ["del", 0, [0, 1, 2]], ["del", 0, []], ["delx", 0, [3, 4]]]
+        sops += [["op", 1, name, k1 + q % 4] for q, name in enumerate(CACHE_OPS)]
+        sops += [["del", 1, [k1]], ["del", 1, [k1, k1 + 1, k1 + 2]], ["del", 1, []], ["delx", 1, [k1 + 3]], ["tick"]]
+        for ti, t in enumerate("shlpez"):
+            sops += [["op", 2, KV_OPS[t][0], k2 + ti]]
+        sops += [["del", 2, [k2, k2 + 1]], ["del", 2, []], ["snap"]]
+        res.append(self._script([20131, 20132],
+                                [{"kind": "kv", "nodes": [[0, W0], [1, W0]]}, {"kind": "cache", "nodes": [[1, W0], [0, W0]]},
+                                 {"kind": "kv", "nodes": [[0, 100], [1, 50]]}], keys, sops))
         return res
 
     def _gen_script(self, rng):
@@ -1124,8 +1159,9 @@ class C15(Property):
             else:
                 ops.append({"tick": "CTick", "populate": "CPopulate", "snap": "CSnap"}[o[0]])
         zl = lambda rows_: clist([clist([cz(x) for x in row]) for row in rows_])
-        return "UserCase (mkUser %s %s %s %s %s %s %s)" % (cz(obs["r"]), clist(rows), insts, keys, clist(ops),
-                                                          zl(obs.get("touch") or []), zl(obs.get("snap") or []))
+        res = clist(["%d" % {"ok": 0, "nonode": 1}.get(r, 2) for r in obs.get("res") or []])
+        return "UserCase (mkUser %s %s %s %s %s %s %s %s)" % (cz(obs["r"]), clist(rows), insts, keys, clist(ops),
+                                                             zl(obs.get("touch") or []), zl(obs.get("snap") or []), res)
 
     def coq_case(self, case, obs):
         if case.get("kind") == "repr":
